@@ -31,7 +31,13 @@ for d in sorted(glob.glob(os.path.join(VERIF, 'seeded', '*'))):
             break
     first = re.sub(r'\s+', ' ', first)[:150]
     others = [c for c in caught if c != target]
-    rows.append('| %s | %s | %s | %s | %s |' % (sid, first.replace('|', '/'), 'yes' if target in caught else '**NO**',
+    verdict = 'yes' if target in caught else '**NO**'
+    if target not in caught:
+        for key, label in (('out_of_domain', 'no (outside the property\'s input domain)'), ('not_instantiated', 'no (needs an instantiation the harness does not make)'),
+                           ('obsolete_after_fix', 'n/a (no longer breaking after a fix: commit)')):
+            if meta.get(key):
+                verdict = label
+    rows.append('| %s | %s | %s | %s | %s |' % (sid, first.replace('|', '/'), verdict,
                                               ', '.join(others) or '-', ', '.join(inconc) or '-'))
 print('| seed | change (first line of its notes) | caught by target check | also caught by | inconclusive |')
 print('|---|---|---|---|---|')
